@@ -242,6 +242,7 @@ class Program:
                     raise AnalysisError(f"{rel}: does not compile: {exc}") from exc
                 unrolled = unroll_literal_tables(tree)
                 normalise_augassign(tree)
+                normalise_get_default(tree)
                 split_annassign(tree)
                 self.modules[modname] = ModuleInfo(modname, path, rel, src, tree, is_package=is_pkg)
                 if unrolled:
@@ -892,6 +893,17 @@ def inline_attribute_aliases(prog: "Program") -> list[str]:
         ast.fix_missing_locations(fn)
         done.extend(f"{f.short()}.{a}" for a in aliases)
     return sorted(done)
+
+
+def normalise_get_default(tree: ast.AST) -> int:
+    """`m.get(k, None)` read as `m.get(k)` (None is the default of every mapping's get)."""
+    n = 0
+    for c in ast.walk(tree):
+        if isinstance(c, ast.Call) and isinstance(c.func, ast.Attribute) and c.func.attr == "get" and len(c.args) == 2 and not c.keywords \
+                and isinstance(c.args[1], ast.Constant) and c.args[1].value is None:
+            c.args = c.args[:1]
+            n += 1
+    return n
 
 
 def normalise_augassign(tree: ast.AST) -> int:
